@@ -42,6 +42,8 @@ def grid(tier):
     g = [cell(d, k, o, s) for d in DESTS for k in KINDS for o in (False, True) for s in SELS]
     # the recorded Path written with a trailing slash (other implementations do that for directories)
     g += [cell(d, k, False, "single", pslash=True) for d in DESTS for k in KINDS]
+    g += [cell(d, k, False, "single", pslash=ps) for d in DESTS for k in KINDS
+          for ps in ("dotdot_missing", "dotdot_existing")]
     return g
 
 
@@ -51,7 +53,8 @@ def strategy_(draw, tier):
                 draw(st.sampled_from(SELS)), draw(gen.names(long_ok=False)),
                 draw(st.sampled_from(["home", "top_alt", "top_sticky"])),
                 draw(st.text(alphabet="abc\n", min_size=1, max_size=8)),
-                draw(gen.names(simple=True)), draw(st.integers(0, 5)) == 0)
+                draw(gen.names(simple=True)),
+                draw(st.sampled_from([False, False, False, False, True, "dotdot_missing", "dotdot_existing"])))
 
 
 def strategy(tier):
@@ -77,7 +80,14 @@ def run_case(case):
         case = dict(case, pslash=False)   # the slash form is only judged for plain single restores
     if case.get("pslash"):
         from ..sandbox import fsenc
-        pv = fsenc(dest if base is None else dest[len(base.rstrip("/")) + 1:]) + b"/"
+        shown = dest
+        if case["pslash"] == "dotdot_missing":     # <wd>/no-such-dir/../name
+            shown = wd + "/no-such-dir/../" + case["name"]
+        elif case["pslash"] == "dotdot_existing":  # <wd>/zz-linktarget-dir/../name
+            shown = wd + "/zz-linktarget-dir/../" + case["name"]
+        pv = fsenc(shown if base is None else shown[len(base.rstrip("/")) + 1:])
+        if case["pslash"] is True:
+            pv += b"/"
     e = tw.add(tdir, base, dest, "2020-01-02T00:00:00", kind=case["kind"], content=case["content"],
                path_value=pv,
                link_to={"link_file": "zz-linktarget-file", "link_dangling": "gone"}.get(case["kind"], "x"))
@@ -119,7 +129,7 @@ def run_case(case):
     res = runner.run(spec, "trash-restore", args + (["/"] if spec["cwd"] == "/" else []), stdin=reply)
     after = sandbox.snapshot()
     tags = dict(dest=d, entry=case["kind"], overwrite=case["overwrite"], sel=case["sel"],
-                pslash=bool(case.get("pslash")))
+                pslash=str(case.get("pslash") or False))
     sigma = subtree(before, e["payload"])
     in_trash = (e["info"] in after and subtree(after, e["payload"]) == sigma and
                 sandbox.sig(after[e["info"]]) == sandbox.sig(before[e["info"]]))
@@ -198,6 +208,6 @@ def run_case(case):
                      "nor restored (or both)", **tags)
     if d != "absent" or twin is not None:
         out.key = [d, case["kind"], case["overwrite"], case["sel"], case["tkind"],
-                   gen.name_class(case["name"]), bool(case.get("pslash"))]
+                   gen.name_class(case["name"]), str(case.get("pslash") or False)]
         out.sample = dict(case, exit=res.code)
     return out
